@@ -126,6 +126,11 @@ type Spec struct {
 	SchemaFormat uint32 // 0 => 4
 	// Chains: hostile overflow chains (such images are not well-formed)
 	Chains []ChainHack
+	// LegacyHeader: header fields a reader must not trust. 1: as written by SQLite before 3.7.0 (in-header
+	// database size 0, version-valid-for 0, version number 0); 2: the file was last written by such a
+	// version after a newer one: a stale (smaller) in-header size with a version-valid-for that does not
+	// match the change counter. Both are well-formed: SQLite then takes the size from the file.
+	LegacyHeader int
 }
 
 // ChainHack changes the Nth (0-based, in build order) overflowing cell of the
@@ -953,6 +958,20 @@ func Build(s *Spec) (img *Image, err error) {
 		copy(out[(pg-1)*b.ps:], p)
 	}
 	b.header(out, n, s.SchemaFormat)
+	switch s.LegacyHeader {
+	case 1:
+		binary.BigEndian.PutUint32(out[28:], 0)
+		binary.BigEndian.PutUint32(out[92:], 0)
+		binary.BigEndian.PutUint32(out[96:], 0)
+	case 2:
+		stale := n / 2
+		if stale < 1 {
+			stale = 1
+		}
+		binary.BigEndian.PutUint32(out[28:], uint32(stale))
+		binary.BigEndian.PutUint32(out[92:], 6) // change counter is 7
+		binary.BigEndian.PutUint32(out[96:], 3006023)
+	}
 	for _, f := range []struct {
 		off, w int
 		name   string
